@@ -106,11 +106,18 @@ def histories(draw: st.DrawFn) -> dict[str, Any]:
         act = holder[key]
         if act["op"] == "raise":
             holder[key] = {"op": "raise", "exc": act["exc"], "msg": draw(MSGS)}
-        elif draw(st.integers(0, 7)) == 0:
+        elif draw(st.integers(0, 15)) == 0:
             holder[key] = {"op": "raise", "exc": draw(st.sampled_from(programs.EXC_NAMES)), "msg": draw(MSGS)}
+    for call in spec["calls"]:
+        kind = spec["methods"][call["mid"]]["kind"]
+        if kind == "producer" and draw(st.booleans()):
+            call["take"] = draw(st.integers(0, 4))
+            call["end"] = draw(st.sampled_from(["cancel", "close"]))
+        elif kind == "exchange":
+            call["end"] = draw(st.sampled_from(["cancel", "close"]))
     return {
         "spec": spec,
-        "cfg": draw(st.integers(0, len(CFGS) - 1)),
+        "cfg": draw(st.sampled_from(range(len(CFGS)))),
         "level": draw(st.sampled_from(["INFO", "DEBUG"])),
         "fmt_cap": draw(st.sampled_from([None, None, None, None, 4096])),
     }
@@ -379,67 +386,61 @@ def run_case(case: dict[str, Any]) -> Outcome:
         else:
             segs = _segments(events)
             seg_ok = len(segs) == len(calls)
-            by_method: dict[str, list[dict[str, Any]]] = {}
-            for r in app:
-                by_method.setdefault(str(r.get("method")), []).append(r)
             known = {m["name"] for m in spec["methods"]}
-            for name in by_method:
-                if name not in known:
-                    out.fail("orphan_record/socket", f"record for unknown method {name!r}")
-            call_idx: dict[str, list[int]] = {}
+            for r in app:
+                if r.get("method") not in known:
+                    out.fail("orphan_record/socket", f"record for unknown method {r.get('method')!r}")
+            app = [r for r in app if r.get("method") in known]
+            # One connection serves the history sequentially, so records appear in call order: walk both.
+            pos = 0
             for ci, call in enumerate(calls):
-                call_idx.setdefault(spec["methods"][call["mid"]]["name"], []).append(ci)
-            for m in spec["methods"]:
+                m = spec["methods"][call["mid"]]
                 name, kind = m["name"], m["kind"]
-                cis = call_idx.get(name, [])
-                recs = by_method.get(name, [])
                 where = f"socket/{kind}"
-                groups: list[list[dict[str, Any]]]
-                if kind == "unary":
-                    if len(recs) != len(cis):
-                        out.fail(f"record_count/{where}/{'few' if len(recs) < len(cis) else 'many'}", f"{len(cis)} unary calls of {name}, {len(recs)} records")
-                        continue
-                    groups = [[r] for r in recs]
-                else:
-                    groups = []
-                    seen: dict[str, int] = {}
-                    for r in recs:
-                        sid = str(r.get("stream_id"))
-                        if sid not in seen:
-                            seen[sid] = len(groups)
-                            groups.append([])
-                        groups[seen[sid]].append(r)
-                    if len(groups) != len(cis):
-                        out.fail(f"record_count/{where}/{'few' if len(groups) < len(cis) else 'many'}", f"{len(cis)} stream calls of {name}, records form {len(groups)} stream_id groups ({len(recs)} records)")
-                        continue
-                for ci, grp in zip(cis, groups, strict=True):
-                    call = calls[ci]
-                    if kind != "unary" and seg_ok:
+                if pos >= len(app) or app[pos].get("method") != name:
+                    out.fail(f"record_count/{where}/few", f"call#{ci} ({name}) has no access-log record at its place in the sequence {[r.get('method') for r in app]}")
+                    break
+                grp = [app[pos]]
+                pos += 1
+                if kind != "unary":
+                    sid = grp[0].get("stream_id")
+                    while sid is not None and pos < len(app) and app[pos].get("method") == name and app[pos].get("stream_id") == sid:
+                        grp.append(app[pos])
+                        pos += 1
+                    if seg_ok:
                         n_proc = sum(1 for ev in segs[ci] if ev["ev"] in ("produce", "exchange"))
                         n = len(grp)
                         if n != 1 and not (1 + n_proc <= n <= 2 + n_proc):
                             out.fail(f"record_count/{where}/neither_one_nor_per_turn", f"stream call of {name}: process() ran {n_proc}×, {n} records")
-                    e = observations[ci].get("error_obj")
-                    exp_text: str | None = None
-                    source = "-"
-                    if e is not None:
-                        prefix = f"{e.error_type}: "
-                        seen = e.error_message[len(prefix):] if e.error_message.startswith(prefix) else None
-                        exp_text, source = _expected(e.error_type, seen, mtexts[ci])
-                    elif mtexts[ci] is not None:
-                        exp_text, source = mtexts[ci][1], "str(exc) from the program spec"
-                    for rec in grp:
-                        checked.add(id(rec))
-                        _check_schema(out, rec, exp_text if rec.get("status") == "error" else None, where)
-                        want_type = "unary" if kind == "unary" else "stream"
-                        if rec.get("method_type") != want_type:
-                            out.fail(f"method_type_mismatch/{where}", f"{name} logged as method_type {rec.get('method_type')!r}")
-                        if rec.get("status") == "error" and (e is None or rec.get("error_type") == e.error_type) and (e is not None or (mtexts[ci] is not None and rec.get("error_type") == mtexts[ci][0])):
-                            _check_message(out, rec, exp_text, where, source)
-                        if case["level"] == "DEBUG":
-                            _check_request_data(out, rec, spec, call, where)
-                    _stream_id_shared(out, grp, where)
-                    _call_level(out, grp, observations[ci], models[ci], mtexts[ci], where)
+                    if len(grp) >= 2:
+                        out.label("multi_record_stream")
+                e = observations[ci].get("error_obj")
+                exp_text: str | None = None
+                source = "-"
+                if e is not None:
+                    prefix = f"{e.error_type}: "
+                    seen = e.error_message[len(prefix):] if e.error_message.startswith(prefix) else None
+                    exp_text, source = _expected(e.error_type, seen, mtexts[ci])
+                elif mtexts[ci] is not None:
+                    exp_text, source = mtexts[ci][1], "str(exc) from the program spec"
+                for rec in grp:
+                    checked.add(id(rec))
+                    _check_schema(out, rec, exp_text if rec.get("status") == "error" else None, where)
+                    want_type = "unary" if kind == "unary" else "stream"
+                    if rec.get("method_type") != want_type:
+                        out.fail(f"method_type_mismatch/{where}", f"{name} logged as method_type {rec.get('method_type')!r}")
+                    same_failure = rec.get("error_type") == (e.error_type if e is not None else mtexts[ci][0] if mtexts[ci] is not None else None)
+                    if rec.get("status") == "error" and same_failure:
+                        _check_message(out, rec, exp_text, where, source)
+                    if case["level"] == "DEBUG":
+                        _check_request_data(out, rec, spec, call, where)
+                _stream_id_shared(out, grp, where)
+                _call_level(out, grp, observations[ci], models[ci], mtexts[ci], where)
+            else:
+                if pos < len(app):
+                    extra = app[pos]
+                    kind = next(m["kind"] for m in spec["methods"] if m["name"] == extra.get("method"))
+                    out.fail(f"record_count/socket/{kind}/many", f"{len(app) - pos} record(s) beyond the {len(calls)} calls of the history, first for {extra.get('method')!r}")
     for rec in records:
         if id(rec) not in checked:
             _check_schema(out, rec, None, f"{tk}/unattributed")
